@@ -58,6 +58,13 @@ func (c *Ctx) RuleFsAlways(commands []string) *Result {
 			continue
 		}
 		vals, _ := c.flagValues(cmd, "check")
+		// an opt-in dry run is a check mode by another name: with it the command is asked not to write
+		for _, dry := range []string{"dry-run", "dryrun", "dry_run", "no-write", "simulate"} {
+			more, _ := c.flagValues(cmd, dry)
+			for v := range more {
+				vals[v] = true
+			}
+		}
 		reach := g.Reach(c.CommandRoots(cmd))
 		for _, ws := range c.writeSites() {
 			if _, ok := reach[ws.fn]; !ok || ws.prim.pathArg < 0 || ws.prim.dataArg < 0 {
@@ -106,6 +113,10 @@ func (c *Ctx) RuleFsAlways(commands []string) *Result {
 						if (a == data && onDisk(b)) || (b == data && onDisk(a)) {
 							return true // nothing to change: what would be written is what the file holds
 						}
+					}
+					// the same test in a predicate of the repository that is handed the path and the data
+					if call, ok := cond.(*ssa.Call); ok && val && equalContentsHelper(c, call, w.pathV, data) {
+						return true
 					}
 					return false
 				}
@@ -173,6 +184,65 @@ func (c *Ctx) RuleFsAlways(commands []string) *Result {
 		}
 	}
 	return res
+}
+
+// equalContentsHelper: call invokes a bool function of the repository with the path and the data, and
+// that function answers true only with the value of bytes.Equal(ReadFile(path), data).
+func equalContentsHelper(c *Ctx, call *ssa.Call, pathV, data ssa.Value) bool {
+	H := staticFn(&call.Call)
+	if H == nil || !c.P.IsRepoFn(H) || len(H.Blocks) == 0 || H.Signature.Results().Len() != 1 {
+		return false
+	}
+	pi, di := -1, -1
+	for i, a := range call.Call.Args {
+		if a == pathV {
+			pi = i
+		}
+		if stripConv(a) == data {
+			di = i
+		}
+	}
+	if pi < 0 || di < 0 || pi >= len(H.Params) || di >= len(H.Params) {
+		return false
+	}
+	good, n := true, 0
+	allInstrs(H, func(in ssa.Instruction) {
+		r, ok := in.(*ssa.Return)
+		if !ok {
+			return
+		}
+		var leaves []ssa.Value
+		if ph, isPhi := r.Results[0].(*ssa.Phi); isPhi {
+			leaves = ph.Edges
+		} else {
+			leaves = []ssa.Value{r.Results[0]}
+		}
+		for _, lv := range leaves {
+			if bv, isC := constBool(lv); isC && !bv {
+				continue
+			}
+			eq, isCall := lv.(*ssa.Call)
+			if !isCall || !isFn(staticCallee(&eq.Call), "bytes", "Equal") {
+				good = false
+				continue
+			}
+			a, b := stripConv(eq.Call.Args[0]), stripConv(eq.Call.Args[1])
+			fromDisk := func(v ssa.Value) bool {
+				ex, ok := v.(*ssa.Extract)
+				if !ok || ex.Index != 0 {
+					return false
+				}
+				rc, ok := ex.Tuple.(*ssa.Call)
+				return ok && isFn(staticCallee(&rc.Call), "os", "ReadFile") && rc.Call.Args[0] == ssa.Value(H.Params[pi])
+			}
+			if (a == ssa.Value(H.Params[di]) && fromDisk(b)) || (b == ssa.Value(H.Params[di]) && fromDisk(a)) {
+				n++
+			} else {
+				good = false
+			}
+		}
+	})
+	return good && n > 0
 }
 
 // errOperandAlwaysNonNil: the operand is a phi/values that are all constructed errors.
@@ -633,6 +703,16 @@ func (c *Ctx) RuleSuffixOps() *Result {
 					if b != l.header {
 						for _, s := range b.Succs {
 							if !l.body[s] {
+								// leaving the loop to report a failure (a return whose error is known to be non-nil, a loud
+								// exit) is not "the remaining files are skipped": the command fails
+								if r, ok := s.Instrs[len(s.Instrs)-1].(*ssa.Return); ok {
+									if op := retErrOperand(r); op != nil && (errOperandAlwaysNonNil(op) || domFacts(s)[op] == nonNil || c.factsNonNil(s, op)) {
+										continue
+									}
+								}
+								if lm.BlockDies(s) {
+									continue
+								}
 								bad = fmt.Sprintf("the loop over %s is left early at %s: the remaining elements are never processed", p.Name(), c.P.InstrPos(b.Instrs[len(b.Instrs)-1]))
 							}
 						}
@@ -1287,6 +1367,14 @@ func (c *Ctx) RuleExclKey() *Result {
 		pi := paramIndex(F, par)
 		okAll, n := true, 0
 		for _, e := range c.Graph().In[F] {
+			// a helper that is handed the line (a method that hides the map)
+			if cc := callCommon(e.Site); cc != nil && staticFn(cc) == F && pi >= 0 && pi < len(cc.Args) {
+				n++
+				if !isText(cc.Args[pi]) {
+					okAll = false
+				}
+				continue
+			}
 			mc, isMC := e.Site.(*ssa.MakeClosure)
 			if !isMC {
 				continue
@@ -2903,4 +2991,12 @@ func firstCall(fn *ssa.Function) (*ssa.Call, bool) {
 		}
 	})
 	return out, out != nil
+}
+
+// factsNonNil: the branch facts that hold on entry to block b say that v is not nil.
+func (c *Ctx) factsNonNil(b *ssa.BasicBlock, v ssa.Value) bool {
+	if len(b.Instrs) == 0 {
+		return false
+	}
+	return knownNonEmpty(c.factsAt(b.Instrs[0]), v)
 }
